@@ -40,8 +40,42 @@ type Case struct {
 	// WithWorkers in the option list (the last one wins); Ctx = "" (a cancellable context is
 	// passed, "c" events cancel it), "none" (no WithContext option), "pre" (already cancelled
 	// when the call starts), "expired" (deadline already exceeded when the call starts)
+	// Ctx = "gate": a cancellable context whose Done() parks the CALLER goroutine the first time it
+	// is called on it - mapReduceWithPanicChan evaluates options.ctx.Done() when it enters its final
+	// select - until the event ["k"] releases it: everything else can run while the caller is not
+	// yet a receiver on panicChan / output.
+	// Repeat > 1: the forced schedule is run up to Repeat times and the first run whose result is not a
+	// re-raised user panic is reported (Go's select picks at random among ready cases).
 	WorkersFirst *int   `json:"workers_first"`
 	Ctx          string `json:"ctx"`
+	Repeat       int    `json:"repeat"`
+}
+
+// gateCtx parks one goroutine (the caller of the mr function) in its first call of Done().
+type gateCtx struct {
+	context.Context
+	gid  uint64
+	once sync.Once
+	t    *thread
+}
+
+func (c *gateCtx) Done() <-chan struct{} {
+	if goid() == c.gid {
+		c.once.Do(func() { c.t.wait() })
+	}
+	return c.Context.Done()
+}
+
+func goid() uint64 {
+	var buf [64]byte
+	b := string(buf[:runtime.Stack(buf[:], false)])
+	b = strings.TrimPrefix(b, "goroutine ")
+	if i := strings.IndexByte(b, ' '); i > 0 {
+		b = b[:i]
+	}
+	var id uint64
+	fmt.Sscanf(b, "%d", &id)
+	return id
 }
 
 type Out struct {
@@ -126,6 +160,7 @@ type runner struct {
 	mu      sync.Mutex
 	gen     *thread
 	red     *thread
+	caller  *thread
 	maps    map[int]*thread
 	mapped  []int
 	reduced []int
@@ -442,6 +477,7 @@ func runCase(c Case) Out {
 	auto := c.API == "finish" || c.API == "finishvoid"
 	r.gen = newThread(c.Gen)
 	r.red = newThread(c.Red)
+	r.caller = newThread(nil)
 	base, _ := mrGoroutines()
 
 	ctx, cancelCtx := context.WithCancel(context.Background())
@@ -461,13 +497,17 @@ func runCase(c Case) Out {
 	}
 	var result atomic.Value
 	var returned atomic.Bool
+	gated := c.Ctx == "gate" && !free
 	go func() {
+		if gated {
+			ctx = &gateCtx{Context: ctx, gid: goid(), t: r.caller}
+		}
 		res := r.call(ctx)
 		result.Store(res)
 		returned.Store(true)
 	}()
 
-	// quiescence: no goroutine (other than the controller) is running or runnable in three consecutive
+	// quiescence: no goroutine (other than the controller) is running or runnable in two consecutive
 	// stop-the-world snapshots with yields in between (a single quiet snapshot was once followed by further
 	// progress on a machine with load > 100); the waits between snapshots grow with the time a snapshot takes
 	quiesce := func() bool {
@@ -485,11 +525,14 @@ func runCase(c Case) Out {
 			took := time.Since(t0)
 			if !any {
 				stable++
-				if stable >= 3 {
+				if stable >= 2 {
 					return true
 				}
 				runtime.Gosched()
-				time.Sleep(20*time.Microsecond + took/2)
+				if took > time.Millisecond {
+					// a slow snapshot means a loaded machine: give a wrongly quiet state time to move
+					time.Sleep(took / 2)
+				}
 				continue
 			}
 			stable = 0
@@ -556,6 +599,11 @@ func runCase(c Case) Out {
 					return nil, false
 				}
 				return r.red, true
+			case "k":
+				if !gated {
+					return nil, false
+				}
+				return r.caller, false
 			case "m":
 				r.mu.Lock()
 				t := r.maps[num(ev[1])]
@@ -616,6 +664,8 @@ func runCase(c Case) Out {
 					ev = []any{"m", items[0]}
 				} else if !r.foreach && r.red.atGate.Load() {
 					ev = []any{"r"}
+				} else if gated && r.caller.atGate.Load() {
+					ev = []any{"k"}
 				}
 			}
 			if ev == nil {
@@ -651,6 +701,10 @@ func main() {
 	w := hx.NewWriter()
 	defer w.Close()
 	for _, c := range cases {
-		w.Put(runCase(c))
+		out := runCase(c)
+		for i := 1; i < c.Repeat && out.Err == "" && out.Result != nil && len(out.Result) > 0 && out.Result[0] == "panic"; i++ {
+			out = runCase(c)
+		}
+		w.Put(out)
 	}
 }
